@@ -773,6 +773,28 @@ def genJoin (rng : Rng) (len : Nat) : Rng × Array String :=
   let lines := (List.range capL).foldl (fun (ls : Array String) v => ls.push s!"data g0 {v}") lines
   (rng, lines ++ #["observe g0", "snap g0"])
 
+/-- the image of a graph with a removed slot (C09: *every* reachable graph): the situation in which `join` is certain,
+    some further valid calls on both graphs, the merge, then `save`, every cut point of the image, and a reload -/
+def genJoinSer (rng : Rng) (len : Nat) : Rng × Array String :=
+  let (rng, n) := rng.pick [2, 3, 4, 16]
+  let pool : List Label := ([Lb.Label.alpha 0, .alpha 1, .greek 'ρ'].take (min n 3))
+  let (rng, capL) := rng.pick [6, 8, 10, 12]
+  let (rng, capR) := rng.pick [3, 4, 6]
+  let prof : Prof := { wAdd := 10, wAddPresent := 1, wBind := 20, wPut := 12, wPutAgain := 1, wData := 2, wDataUnread := 2,
+                       wKid := 1, wKids := 1, wNext := 3, wKeys := 0 }
+  let (rng, x) := rng.below (capL - 2)
+  let (rng, y) := rng.below (capR - 1)
+  let la := pool.headD (.alpha 0)
+  let lb := pool.getD 1 (.alpha 1)
+  let s0 : GenSt := { GenSt.start rng n capL with labels := pool }
+  let s0 := match s0.tryOps [.add x, .add (x + 1), .add (x + 2), .bind x (x + 1) la, .bind x (x + 2) lb] with | some t => t | none => s0
+  let s0 := (List.range (len / 2)).foldl (fun s _ => s.stepRandom prof) s0
+  let s1 : GenSt := { s0 with h := "g1", r := Sodg.R.empty, cap := capR, lines := s0.lines.push s!"new g1 {n} {capR}" }
+  let s1 := match s1.tryOps [.add y, .add (y + 1), .bind y (y + 1) la, .bind y (y + 1) lb] with | some t => t | none => s1
+  let s1 := (List.range (len / 4)).foldl (fun s _ => s.stepRandom prof) s1
+  (s1.rng, s1.lines ++ #["observe g0", "observe g1", s!"merge g0 g1 {x} {y}", "observe g0", "snap g0", "save g0", "loadcuts g0 1",
+    "reload g0 g2", "observe g0"])
+
 /-- render profile: a history, then every text export of the graph and of each present (and one absent) vertex;
     repeated once more after some further calls. Here: every export of the graph held by handle `h` (which has the
     content of `s.r`) -/
@@ -890,6 +912,7 @@ def genProfile (profile : String) (seed : Nat) (count len : Nat) : Array String 
       | "mergebroken" => genMerge rng true
       | "mergemix" => genMerge rng (i % 2 = 0)     -- failing merges and merges of trees alternate in one process
       | "join" => genJoin rng len
+      | "joinser" => genJoinSer rng len
       | "ser" => genSer rng len 7
       | "serall" => genSer rng len 1
       | _ => (rng, #[])
